@@ -288,7 +288,7 @@ def p5(prog, rep):
     rep.floor("P5", len(aggs), 1, "SequencerBlockBuilder construction in post_execute_transactions")
     SELECTING = {"filter", "filter_map", "take", "skip", "take_while", "skip_while", "step_by",
                  "rev", "dedup", "retain", "truncate", "sort", "sort_by", "sort_by_key", "chain",
-                 "zip", "flatten", "nth", "last", "first", "find", "find_map", "partition",
+                 "zip", "nth", "last", "first", "find", "find_map", "partition",
                  "map_while", "scan", "peekable"}
     for i, j, p_, rv, line in aggs:
         f = dict(zip(rv[5], [b.root(o) for o in rv[4]]))
